@@ -41,10 +41,6 @@ func (c *Ctx) checkScalar(s *edwards25519.Scalar, want *big.Int, what string, de
 func C07(c *Ctx) {
 	n := c.N(240000, 96000000) // each case is a batch of operations on one operand triple
 	classes := gen.ScalarClasses()
-	// a scalar object that lives through the whole run and is updated IN PLACE (same pointer,
-	// different values), with Invert applied to it again and again into another long-lived object
-	accS, accK := new(edwards25519.Scalar), big.NewInt(0)
-	invS := new(edwards25519.Scalar)
 	for i := int64(0); i < n; i++ {
 		if !c.Mine(i) {
 			continue
@@ -104,14 +100,18 @@ func C07(c *Ctx) {
 			}
 			c.checkScalar(w, one, "x*Invert(x)", det)
 		}
-		// long-lived objects
-		accS.MultiplyAdd(accS, sx, sy)
-		accK = ref.SAdd(ref.SMul(accK, x.K), y.K)
-		if c.Res.Cases%8 == 0 {
+		// the same object updated in place between two uses as an argument (same pointer,
+		// different values): self-contained per case so that a replay reproduces it
+		if i%8 == 3 {
+			accS := new(edwards25519.Scalar).Set(sx)
+			invS := new(edwards25519.Scalar).Invert(accS)
+			c.checkScalar(invS, ref.SInv(x.K), "Invert (first use of the object)", det)
+			accS.MultiplyAdd(accS, sy, sz)
+			accK := ref.SAdd(ref.SMul(x.K, y.K), z.K)
 			invS.Invert(accS)
 			ev("in-place-object")
 			c.checkScalar(accS, accK, "object updated in place", det)
-			c.checkScalar(invS, ref.SInv(accK), "Invert of an object updated in place", det)
+			c.checkScalar(invS, ref.SInv(accK), "Invert of the same object after an in-place update", det)
 		}
 		// Equal
 		eq := sx.Equal(sy)
